@@ -75,6 +75,23 @@ pub fn cfg_for(op: usize, d: &mut Dna) -> GenCfg {
                 },
             }
         },
+        10 => {
+            // now and then the shapes of the "Default designation under a type-level expression" sub-operator
+            match d.pick(8) {
+                0 => {
+                    c.kinds = vec![Kind::Union];
+                    c.must = vec![Tr::Default];
+                    c.generics = false;
+                },
+                1 => {
+                    c.kinds = vec![Kind::Struct, Kind::Enum];
+                    c.must = vec![Tr::Default];
+                    c.generics = false;
+                    c.min_variants = 1;
+                },
+                _ => {},
+            }
+        },
         11 | 12 => {
             c.kinds = vec![Kind::Union];
             if op == 11 {
@@ -586,11 +603,15 @@ pub fn apply(op: usize, s: &mut TypeSpec, d: &mut Dna) -> Option<Fault> {
         // ---------------------------------------------------------------- O10 parameter not accepted at that position
         10 => {
             let with_fields: Vec<usize> = (0..nv).filter(|i| !s.variants[*i].fields.is_empty()).collect();
-            let first = d.pick(6);
+            let first = d.pick(7);
+            let default_expr_possible = s.has(Tr::Default)
+                && !with_fields.is_empty()
+                && (s.attr(Tr::Default).and_then(|a| a.expr()).is_some() || (kind == Kind::Union && s.gens.is_empty()));
             // the first applicable sub-operator, starting from a generated one
-            let choice = (0..6)
-                .map(|k| (first + k) % 6)
+            let choice = (0..7)
+                .map(|k| (first + k) % 7)
                 .find(|c| match c {
+                    6 => default_expr_possible,
                     0 => s.has(Tr::Debug) && kind != Kind::Union && (0..nv).any(|i| !s.variants[i].fields.is_empty() && !crate::known::debug_variant_view(s, i).1),
                     1 => kind == Kind::Union && traits.iter().any(|t| matches!(t, Tr::Debug | Tr::PartialEq | Tr::Hash | Tr::Clone)),
                     2 => kind == Kind::Enum && nv > 0 && traits.iter().any(|t| !matches!(t, Tr::Into | Tr::Deref | Tr::DerefMut)),
@@ -600,6 +621,36 @@ pub fn apply(op: usize, s: &mut TypeSpec, d: &mut Dna) -> Option<Fault> {
                 })
                 .unwrap_or(first);
             match choice {
+                // a field-level Default designation although the value comes from a type-level expression
+                6 if default_expr_possible => {
+                    if s.attr(Tr::Default).and_then(|a| a.expr()).is_none() {
+                        // (unions are not generated with a type-level expression: write one for the first field)
+                        let f0 = &s.variants[0].fields[0];
+                        let e = format!("{} {{ {}: {} }}", s.name, f0.name.clone().unwrap_or_default(), f0.ty.vals[0]);
+                        for f in s.variants[0].fields.iter_mut() {
+                            f.attrs.retain(|a| a.tr != Tr::Default);
+                            f.default_expect = None;
+                        }
+                        let sp = d.byte();
+                        if let Some(a) = s.traits.iter_mut().find(|a| a.tr == Tr::Default) {
+                            a.params.push((TParam::Expr(e), sp));
+                        }
+                    }
+                    let vi = *d.choose(&with_fields);
+                    let nf = s.variants[vi].fields.len();
+                    let fi = d.pick(nf);
+                    let f = &mut s.variants[vi].fields[fi];
+                    let v = f.ty.vals[0].clone();
+                    let form = match d.pick(4) {
+                        0 => "Default".to_string(),
+                        1 => format!("Default = {v}"),
+                        2 => format!("Default(expression = {v})"),
+                        _ => format!("Default(expr({v}))"),
+                    };
+                    f.attrs.retain(|a| a.tr != Tr::Default);
+                    f.raw.push(format!("#[educe({form})]"));
+                    mk(10, format!("`{form}` on field {vi}.{fi} under a type-level Default expression"), format!("field/{}/Default-under-type-expression", pos_class(fi, nf)))
+                },
                 // `name` on a positionally shown field
                 0 if s.has(Tr::Debug) && kind != Kind::Union => {
                     let pos: Vec<usize> = (0..nv).filter(|i| !s.variants[*i].fields.is_empty() && !crate::known::debug_variant_view(s, *i).1).collect();
